@@ -97,6 +97,14 @@ class Roles:
             for f in self.dedicated_impls(sp['trait'], 'reset'):
                 seen, _ = cg.reachable([f.path])
                 full += [q for q in seen if facts.fns[q].impl_self_adt == work and len(facts.fns[q].inputs) >= 4 and facts.fns[q].inputs[0].startswith('&mut ')]
+            full = sorted(set(full))
+            if len(full) > 1:
+                # phases of the reset split into helpers: the role is the method that calls the others
+                below = set()
+                for q in full:
+                    seen, _ = cg.reachable([q])
+                    below |= {x for x in seen if x != q and x in full}
+                full = [q for q in full if q not in below]
             self.unique('%s.reset' % side, full, 'work method with the configuration parameters reached from %s::reset' % sp['trait'])
             # getters used by the iterator (decoder: original_count())
             # store type: the crate ADT among the field types
@@ -140,15 +148,35 @@ class Roles:
             pos_role = {1: 'original_count', 2: 'recovery_count', 3: 'shard_bytes'}
             if side == 'dec':
                 pos_role.update({4: 'original_base_pos', 5: 'recovery_base_pos'})
-            for bb in f.body.blocks:
-                for st in bb['stmts']:
-                    if st['k'] == 'assign' and st['lhs']['l'] == 1 and len(st['lhs']['p']) == 2 and st['lhs']['p'][0] == '*':
-                        fld = st['lhs']['p'][1].get('f')
-                        c = f.body.canon_rv(st['rv'])
-                        if c[0] == 'param' and c[1] in pn:
-                            i = pn.index(c[1])
-                            if i in pos_role and fld not in fmap:
-                                fmap[fld] = pos_role[i]
+            def param_assigns(g, tr, depth):
+                """(field, position of the reset parameter) for `self.f = <param>` in g; tr maps g's parameter names to
+                reset's parameter names (helpers called on self with plain parameters as arguments are followed)"""
+                for bb in g.body.blocks:
+                    for st in bb['stmts']:
+                        if st['k'] == 'assign' and st['lhs']['l'] == 1 and len(st['lhs']['p']) == 2 and st['lhs']['p'][0] == '*':
+                            fld = st['lhs']['p'][1].get('f')
+                            c = g.body.canon_rv(st['rv'])
+                            if c[0] == 'param' and tr.get(c[1]) in pn:
+                                yield fld, pn.index(tr[c[1]])
+                if depth >= 2:
+                    return
+                for b, t in g.body.calls():
+                    h = facts.fns.get(t['callee'].get('path'))
+                    if h is None or h.impl_self_adt != work or h.path == g.path or not t['args']:
+                        continue
+                    if g.body.canon_op(t['args'][0]) not in (('param', 'self'), ('deref', ('param', 'self'))):
+                        continue
+                    hp = h.param_names()
+                    tr2 = {}
+                    for name, a in zip(hp[1:], t['args'][1:]):
+                        c = g.body.canon_op(a)
+                        if c[0] == 'param' and c[1] in tr:
+                            tr2[name] = tr[c[1]]
+                    for x in param_assigns(h, tr2, depth + 1):
+                        yield x
+            for fld, i in param_assigns(f, {n: n for n in pn if n}, 0):
+                if i in pos_role and fld not in fmap:
+                    fmap[fld] = pos_role[i]
         # counters: usize field incremented by the add function of that kind
         for kind in ('original', 'recovery'):
             a = self.fn.get('%s.add_%s' % (side, kind))
@@ -178,7 +206,7 @@ class Roles:
             for r in src:
                 p = self.fn.get(r)
                 if p:
-                    for b, t in facts.fns[p].body.calls():
+                    for b, t in core.inlined_fn(facts, p, core.self_helper(facts.fns[p].impl_self_adt)).body.calls():
                         g = facts.fns.get(t['callee'].get('path'))
                         if g is not None and g.impl_self_adt == self.store_adt and not g.impl_trait and g.inputs and g.inputs[0].startswith('&mut '):
                             c.append(g.path)
